@@ -303,6 +303,10 @@ def _pipeline2str(ck, repo, ps):
             rows.append(([(str(f_), True) for f_ in facts_], el_))
         site = rets[0]
     for facts, v_ in rows:
+        truthy = [a for a, _b in facts if a.replace(" ", "") in (f"{item}[2]".replace(" ", ""), "vs", "__e0[2]")]
+        if truthy:
+            ck.violated("C16.b", ps, site, f"the row is chosen by the truth value of the columns ({truthy[0][-40:]}), not by `is None`: the columns of a ColumnTransformer can be a pandas Index or a numpy array, whose truth value is ambiguous (ValueError), so pipeline2str prints no line at all for such a pipeline")
+            continue
         try:
             y = ast.parse(_nt(v_), mode="eval").body
         except SyntaxError:
